@@ -431,7 +431,7 @@ def _cst(a):
 
 def _cob(o):
     bk = "(@None (state N))" if o["bk"] is None else f"(Some {_cst(o['bk'])})"
-    return f"Ob {cbool(o['live'])} {cbool(o['mod'])} {bk} {_cst(o['st'])}"
+    return f"(Ob {cbool(o['live'])} {cbool(o['mod'])} {bk} {_cst(o['st'])})"
 
 
 def coq_case(case, obs):
